@@ -31,6 +31,7 @@ type histOpts struct {
 	sizes                  bool   // messages with body sizes around the 4 KiB granule and the limit
 	tails                  bool   // grammar-external surplus bytes inside messages (C03)
 	copyForeign            bool   // Terminate/Describe/Close/Bind as the foreign message that aborts a COPY (C13)
+	churn                  bool   // long runs of Parse/Close, many live names, Bind/Close (C07)
 	manyRows               bool   // long results: a row repeated 17-3000 times (E1 sessions)
 	prefix                 string // program-key prefix (distinct per connection in multi-connection cases)
 }
@@ -500,6 +501,64 @@ func (g *histGen) unit() {
 					g.add(pgwire.FMsg{K: "D", Sub: 'S', S1: sn}, pgwire.FMsg{K: "S"})
 				} else {
 					g.add(g.genBind(g.name(nil, "p"), sn), pgwire.FMsg{K: "S"})
+				}
+			}})
+		}
+		if g.o.churn {
+			cs = append(cs, choice{1, func() {
+				// a long run of definitions: the same name parsed and closed over and
+				// over, many distinct live names, or portals bound and closed - what a
+				// bounded or evicting cache would get wrong
+				n := r.PickInt(20, 65, 70, 130, 260)
+				key := g.newKey()
+				g.c.Programs[key] = &Program{Stmts: []*StmtProg{g.genStmt(true)}}
+				sn := g.name(nil, "s")
+				mode := r.Intn(3)
+				for i := 0; i < n && !g.stop; i++ {
+					switch mode {
+					case 0:
+						g.add(pgwire.FMsg{K: "P", S1: sn, S2: key}, pgwire.FMsg{K: "C", Sub: 'S', S1: sn})
+					case 1:
+						g.add(pgwire.FMsg{K: "P", S1: fmt.Sprintf("t%d", i), S2: key})
+					case 2:
+						if i == 0 {
+							g.add(pgwire.FMsg{K: "P", S1: sn, S2: key})
+						}
+						pn := fmt.Sprintf("c%d", i%3)
+						g.add(g.genBind(pn, sn), pgwire.FMsg{K: "C", Sub: 'P', S1: pn})
+					}
+					if i%16 == 15 {
+						g.add(pgwire.FMsg{K: "S"})
+					}
+				}
+				g.add(pgwire.FMsg{K: "S"})
+			}})
+		}
+		if g.o.binary {
+			cs = append(cs, choice{1, func() {
+				// one statement bound twice with result-format lists that differ in
+				// spelling or in one position, each portal described and executed
+				key := g.newKey()
+				sp := g.genStmt(true)
+				if len(sp.Cols) < 2 {
+					sp.Cols = genCols(r, r.Range(2, 4), g.oids())
+					sp.Ops = []Op{{K: "row", Row: genRow(r, sp.Cols, 5, false)}, {K: "complete", Tag: "SELECT 1"}}
+				}
+				g.c.Programs[key] = &Program{Stmts: []*StmtProg{sp}}
+				sn := g.name(nil, "s")
+				g.add(pgwire.FMsg{K: "P", S1: sn, S2: key})
+				nc := len(sp.Cols)
+				lists := [][]int16{nil, {0}, {1}, make([]int16, nc), make([]int16, nc), make([]int16, nc)}
+				lists[3][0] = 1
+				for i := range lists[4] {
+					lists[4][i] = 1
+				}
+				lists[5][nc-1] = 1
+				for n := r.Range(2, 3); n > 0 && !g.stop; n-- {
+					pn := g.name(nil, "p")
+					b := g.genBind(pn, sn)
+					b.RFmt = lists[r.Intn(len(lists))]
+					g.add(b, pgwire.FMsg{K: "D", Sub: 'P', S1: pn}, pgwire.FMsg{K: "E", S1: pn}, pgwire.FMsg{K: "S"})
 				}
 			}})
 		}
